@@ -1067,7 +1067,7 @@ func triggerTerms(body, bn string) []string {
 		}
 		parts := splitSexprs(s[1 : len(s)-1])
 		if len(parts) == 3 && parts[0] == "select" && hasVar(parts[2]) && !hasVar(parts[1]) && !strings.Contains(parts[2], "(select ") {
-			if !seen[s] && !strings.Contains(s, "forall") {
+			if !seen[s] && !strings.Contains(s, "forall") && !strings.Contains(s, "(ite ") {
 				seen[s] = true
 				out = append(out, s)
 			}
